@@ -263,21 +263,7 @@ func walkFuncs(c *kit.Ctx, m *storeModel) map[*kit.Func]bool {
 		if !readsEdges {
 			continue
 		}
-		recursive := false
-		for _, call := range f.AllCalls(true) {
-			if f.Decl != nil && f.CalleeFunc(call) == f {
-				recursive = true
-			}
-			if f.Lit != nil {
-				// closure assigned to a variable and calling that variable
-				if v, ok := kit.Callee(f.Info(), call).(*types.Var); ok && f.LocalClosure(v) == f {
-					recursive = true
-				}
-			}
-		}
-		if recursive {
-			out[f] = true
-		}
+		out[f] = true
 	}
 	return out
 }
@@ -460,6 +446,41 @@ func checkWalkShape(c *kit.Ctx, m *storeModel, wf *kit.Func, o *kit.Ob) {
 		}
 		return true
 	})
+	// does the walk recurse at all?  If not it must be an iterative work-list walk.
+	recursive := false
+	for _, call := range wf.AllCalls(true) {
+		if wf.CalleeFunc(call) == wf {
+			recursive = true
+		}
+		if v, ok := kit.Callee(info, call).(*types.Var); ok && wf.LocalClosure(v) == wf {
+			recursive = true
+		}
+	}
+	if !recursive {
+		// iterative: the parent query must return every row (Query / a slice-returning
+		// wrapper, not QueryRow), inside a loop, rows pushed unconditionally
+		var site *kit.SQLSite
+		for _, sx := range m.sql.Sites {
+			if sx.F == wf && sx.HasVerb("SELECT", "edges") {
+				site = sx
+			}
+		}
+		inLoop := site != nil && wf.Enclosing(site.Call, func(n ast.Node) bool { _, ok := n.(*ast.ForStmt); return ok }) != nil
+		if site != nil && wf.Enclosing(site.Call, func(n ast.Node) bool { _, ok := n.(*ast.RangeStmt); return ok }) != nil {
+			inLoop = true
+		}
+		switch {
+		case site == nil:
+			o.Undecided("%s: edge query not found", wf.Name)
+		case site.Method == "QueryRow":
+			o.Violation("%s reads the parents of a node with QueryRow: only the first parent edge of each node is followed, an ancestor reachable through a second parent (mirrored node) is never seen", wf.Name)
+		case !inLoop:
+			o.Violation("%s neither recurses nor loops over the edge query: it looks one level up only", wf.Name)
+		default:
+			o.Undecided("%s is an iterative ancestor walk; the checker only knows the recursive shape exactly", wf.Name)
+		}
+		return
+	}
 	if !eqGuard {
 		o.Violation("the ancestor walk %s never answers true on `id == ancestor` of its string parameters", wf.Name)
 		return
